@@ -75,11 +75,17 @@ def kept (ops : List PreOp) (entries : List ExcEntry) : Except Err (List ExcEntr
 
 def hasXKey (m : List XOp) (k : Nat) : Bool := m.any (·.off == k)
 
+/-- `max(...)` of a list of numbers (`none` = Python's `ValueError` for an empty sequence) -/
+def maxOpt : List Nat → Option Nat
+  | [] => none
+  | x :: xs =>
+    match maxOpt xs with
+    | none => some x
+    | some y => some (max x y)
+
 /-- `max(i for i in offset_to_op if i < bound)` over the current keys (doubled) -/
 def maxKeyBelow (m : List XOp) (bound : Nat) : Option Nat :=
-  (m.filter (·.off < bound)).foldl (fun acc o => match acc with
-    | none => some o.off
-    | some a => some (max a o.off)) none
+  maxOpt ((m.map (·.off)).filter (· < bound))
 
 /-- the key after which the POP_BLOCK is filed: `e.end` if it is a key of `offset_to_op`, else the largest key
 below it (`ValueError` from `max()` of an empty sequence when there is none).  Doubled. -/
@@ -171,6 +177,25 @@ def addSetupExcept (ops : List PreOp) (entries : List ExcEntry) : Except Err (Li
         .ok (sortX (m.map (flagOp bits)))
 
 /-! ### decidable premises of the theorems (evaluated by the driver on every real stream) -/
+
+/-- the instruction after which the POP_BLOCK of `e` belongs: `e.stop` if it is an instruction offset, else the last
+instruction before it -/
+def endR (ops : List PreOp) (e : ExcEntry) : Option Nat :=
+  if hasPreOff ops e.stop then some e.stop else maxOpt ((ops.map (·.off)).filter (· < e.stop))
+
+/-- entries that end *between* two instructions do not share their last instruction with an earlier kept entry
+(then the largest key below `e.stop` is that instruction itself, not a marker filed after it) -/
+def endsFreshFrom (ops : List PreOp) : List ExcEntry → List ExcEntry → Bool
+  | _, [] => true
+  | done, e :: es =>
+    (hasPreOff ops e.stop || done.all (fun d => endR ops d != endR ops e)) && (endR ops e).isSome &&
+      endsFreshFrom ops (e :: done) es
+
+def endsFresh (ops : List PreOp) (entries : List ExcEntry) : Bool :=
+  match kept ops entries with
+  | .ok ks => endsFreshFrom ops [] ks
+  | .error _ => false
+
 
 /-- wordcode: every instruction starts at an even byte offset -/
 def evenOffs (ops : List PreOp) : Bool := ops.all (fun o => o.off % 2 == 0)
